@@ -132,6 +132,8 @@ func ghostSort(s string) string {
 		return sortStr
 	case "iface":
 		return sortIface
+	case "Lv":
+		return "Lv"
 	}
 	if strings.HasPrefix(s, "map[") {
 		depth := 0
@@ -819,6 +821,17 @@ func (ec *evalCtx) evalCall(c *ECall) Val {
 			r.Loc = &Loc{Comp: vc.cellComp(t.Underlying().(*types.Pointer).Elem()), Idx: v.T}
 		}
 		return r
+	case "lnil":
+		return Val{K: KArr, T: "lnil", Sort: "Lv"}
+	case "lcons":
+		h, t := ec.eval(arg(0)), ec.eval(arg(1))
+		return Val{K: KArr, T: sApp("lcons", h.T, t.T), Sort: "Lv"}
+	case "lhd":
+		return Val{K: KStr, T: sApp("lhd", ec.eval(arg(0)).T), Typ: types.Typ[types.String]}
+	case "ltl":
+		return Val{K: KArr, T: sApp("ltl", ec.eval(arg(0)).T), Sort: "Lv"}
+	case "isnil":
+		return boolVal("((_ is lnil) " + ec.eval(arg(0)).T + ")")
 	case "addr": // addr(p): the address held by a pointer variable, as an integer
 		v := ec.eval(arg(0))
 		if v.T == "" {
